@@ -1,5 +1,6 @@
 import GdcVerif.Model.J2kLossless
 import GdcVerif.Lemmas.J2kLossless
+import GdcVerif.Gen.J2kTiles
 /-!
   C05 — the JPEG 2000 Lossless-Only transfer syntaxes stay lossless under every accepted parameter set.
 
@@ -139,5 +140,36 @@ example :
     let g : GParams := ⟨some 9, none, some (-4), some [], some 260, some 3, none, none, none⟩
     extractGeneric g = { defaultLParams with ProgressionOrder := 4, NumLayers := 3 } ∧
     (encodeParams 12 16 (extractGeneric g)).NumLayers = 4 := by decide
+
+/-- (5) the encoder's own decision, GENERATED from encoder.go initRDLayerConfig: for a reversible parameter set the
+    layer count is max(1, NumLayers) and `appendLossless` is on exactly when there are ≥ 2 layers — it does not
+    depend on LayerRates, on AppendLosslessLayer or on anything else; and it is the `appendLosslessFlag` of the
+    hand model that `lossless_params_sound` speaks about. -/
+theorem initRDLayerConfig_sound (e : Gen.J2kTiles.Encoder) (hL : e.params.Lossless = true) :
+    let r := Gen.J2kTiles.Encoder.initRDLayerConfig e
+    1 ≤ r.1 ∧ (1 ≤ e.params.NumLayers → r.1 = e.params.NumLayers) ∧ (r.2 = true ↔ e.params.NumLayers > 1) ∧
+    ∀ m : EParams, m.Lossless = e.params.Lossless → m.NumLayers = e.params.NumLayers →
+      m.AppendLosslessLayer = e.params.AppendLosslessLayer → 1 ≤ m.NumLayers → r.2 = appendLosslessFlag m := by
+  unfold Gen.J2kTiles.Encoder.initRDLayerConfig appendLosslessFlag
+  simp only [hL, Bool.true_and]
+  by_cases h0 : e.params.NumLayers ≤ 0
+  · simp only [h0, decide_true, if_true]
+    refine ⟨by decide, fun h => by omega, ?_, fun m _ h2 _ h4 => by omega⟩
+    simp; omega
+  · simp only [h0, decide_false, Bool.false_eq_true, if_false]
+    by_cases h1 : e.params.NumLayers > 1
+    · simp only [h1, decide_true, if_true, Bool.and_true]
+      refine ⟨by omega, fun _ => trivial, by simp, ?_⟩
+      intro m hm1 hm2 hm3 _
+      rw [hm1, hm2]; simp [h1]
+    · simp only [h1, decide_false, Bool.false_eq_true, if_false, Bool.and_false]
+      refine ⟨by omega, fun _ => trivial, by simp, ?_⟩
+      intro m hm1 hm2 hm3 _
+      rw [hm1, hm2]; simp [h1]
+
+example :
+    let e : Gen.J2kTiles.Encoder := { (default : Gen.J2kTiles.Encoder) with params :=
+      { (default : Gen.J2kTiles.EncodeParams) with Lossless := true, NumLayers := 3, AppendLosslessLayer := false } }
+    Gen.J2kTiles.Encoder.initRDLayerConfig e = (3, true) := by decide
 
 end J2kL
